@@ -133,8 +133,14 @@ void h_gc(void)
 {
 	mk_del();
 	VERIF_REQUIRE((G_fl[G_v] & 1) && !(G_fl[G_v] & 2));
+#ifdef LF_CAS_FAIL_ONCE
+	G_cas_fail_budget = 1; G_cas_failed = 0;		/* the unlink compare-and-swap may fail once (transient interference) */
+#endif
 	_cds_lfht_gc_bucket(&G_pool[G_b], &G_pool[G_v]);
-	VERIF_ASSERT(G_cas_count == 1 && G_unl == G_v, "gc_bucket: exactly one CAS, which unlinks the REMOVED node: afterwards no REMOVED node with a reverse hash <= node's is reachable from the bucket");
+#ifdef LF_CAS_FAIL_ONCE
+	VERIF_COVER(G_cas_failed == 1);
+#endif
+	VERIF_ASSERT(G_cas_count == 1 && G_unl == G_v, "gc_bucket: exactly one SUCCESSFUL CAS, which unlinks the REMOVED node - also when an earlier attempt failed: it returns only once no REMOVED node with a reverse hash <= node's is reachable from the bucket");
 	VERIF_ASSERT(G_pool[G_v - 1].next == LF_TAG(LF_AT(G_v + 1), G_fl[G_v - 1] & 2), "gc_bucket: predecessor links past the removed node and keeps its BUCKET bit");
 	VERIF_ASSERT(G_w == G_v - 1 || G_pool[G_w].next == G_wv, "gc_bucket: no other chain node modified (the removed node's own next word is left intact)");
 #ifdef LF_SMALL
